@@ -205,15 +205,25 @@ def audit(prop_modules, dep_modules=()):
     """Forbidden-word grep over lean/W2c2Verif and `#print axioms` for every theorem of the
     property's modules.  Returns dict(obligations, discharged, axioms{thm: [..]}, problems[])."""
     problems = []
-    for root, _, files in os.walk(os.path.join(LEAN, "W2c2Verif")):
-        for fn in files:
-            if not fn.endswith(".lean"):
-                continue
-            p = os.path.join(root, fn)
-            src = strip_comments(open(p).read())
-            for i, line in enumerate(src.splitlines(), 1):
-                if FORBIDDEN.search(line):
-                    problems.append(f"forbidden construct in {os.path.relpath(p, LEAN)}:{i}: {line.strip()[:120]}")
+    # the property's modules and everything they (transitively) import from this project
+    todo = list(prop_modules)
+    seen = set()
+    while todo:
+        mod = todo.pop()
+        if mod in seen or not (mod.startswith("W2c2Verif.") or mod.startswith("Driver.")):
+            continue
+        seen.add(mod)
+        p = os.path.join(LEAN, *mod.split(".")) + ".lean"
+        if not os.path.exists(p):
+            problems.append(f"module {mod} not found")
+            continue
+        raw = open(p).read()
+        for m in re.finditer(r"^import\s+(\S+)", raw, re.M):
+            todo.append(m.group(1))
+        src = strip_comments(raw)
+        for i, line in enumerate(src.splitlines(), 1):
+            if FORBIDDEN.search(line):
+                problems.append(f"forbidden construct in {os.path.relpath(p, LEAN)}:{i}: {line.strip()[:120]}")
     thms = []
     for m in prop_modules:
         thms += theorem_names(m)
